@@ -281,7 +281,10 @@ Fixpoint json_rt (nan : bool) (v : py) : res py :=
                  (map (fun kv => (fst kv, json_rt nan (snd kv))) d))
            (fun e => if nodupb String.eqb (map fst e)
                      then Ok (PDict (map (fun kr => (PStr (fst kr), snd kr)) e))
-                     else Err "Unsupported")
+                     else
+                       (* two keys with the same JSON rendering (0 and "0", True and "true"): dumps writes
+                          both, loads builds dict(pairs): position of the first, value of the last *)
+                       Ok (PDict (map (fun kr => (PStr (fst kr), snd kr)) (dict_of_list String.eqb e))))
   | PSet _ | PObj _ _ _ | PMsg _ _ | PMissing => Err "TypeError"
   end.
 
